@@ -15,67 +15,7 @@ from vp.memenv import Program, Sandbox, concrete_region
 OPS = sm.build_ops(values=("small", "oversize", "none"))
 
 
-def tree_digest(paths):
-    h = hashlib.sha256()
-    n = 0
-    for root in paths:
-        for d, dirs, files in sorted(os.walk(root)):
-            dirs.sort()
-            h.update(d.encode())
-            for f in sorted(files):
-                p = os.path.join(d, f)
-                st = os.stat(p)
-                h.update(f.encode())
-                h.update(str(st.st_mtime_ns).encode())
-                with open(p, "rb") as fh:
-                    h.update(fh.read())
-                n += 1
-    return h.hexdigest(), n
-
-
-class MutationAudit:
-    """sys.addaudithook listener counting file-system mutations under given roots (independent of the tree digest)."""
-
-    _installed = False
-    active = None
-
-    def __init__(self, roots):
-        self.roots = [os.path.realpath(r) for r in roots]
-        self.events = []
-        if not MutationAudit._installed:
-            import sys
-
-            sys.addaudithook(MutationAudit._hook)
-            MutationAudit._installed = True
-
-    @staticmethod
-    def _hook(event, args):
-        self = MutationAudit.active
-        if self is None:
-            return
-        try:
-            if event == "open":
-                path, mode, flags = args
-                if isinstance(path, (str, bytes)) and (flags & (os.O_WRONLY | os.O_RDWR | os.O_CREAT | os.O_TRUNC | os.O_APPEND)):
-                    self._note(event, path)
-            elif event in ("os.mkdir", "os.remove", "os.rmdir", "os.rename", "os.truncate", "os.unlink", "shutil.rmtree", "os.symlink",
-                           "os.link", "os.utime", "os.chmod", "shutil.move", "shutil.copyfile"):
-                self._note(event, args[0])
-        except Exception:  # noqa
-            pass
-
-    def _note(self, event, path):
-        p = os.path.realpath(os.fsdecode(path))
-        for r in self.roots:
-            if p == r or p.startswith(r + os.sep):
-                self.events.append((event, p))
-
-    def __enter__(self):
-        MutationAudit.active = self
-        return self
-
-    def __exit__(self, *a):
-        MutationAudit.active = None
+from vp.fsaudit import MutationAudit, tree_digest  # noqa: E402
 
 
 RO_KINDS = ["fs", "fs+meta", "fs+cache:1", "fs-config-flag"]
